@@ -20,6 +20,7 @@ void drv(asio::io_context& ioc) {
   c.async_receive([](error_code, std::string, std::string, publish_props) {});
   c.async_disconnect(disconnect_rc_e::normal_disconnection, disconnect_props{}, [](error_code) {});
   c.async_disconnect([](error_code) {});
+  c.re_authenticate();
   c.cancel();
 }
 }
